@@ -427,10 +427,16 @@ class UpdateCollection(Message):
                 return
 
             yield self._message(UpdateCollection.prefix(withdraws) + UpdateCollection.prefix(attr) + announced)
-            announced = bytes(packed)
-            announced_size = packed_size
             withdraws = b''
             withdraws_size = 0
+            if packed_size > msg_size:
+                # does not fit a message of its own next to these attributes: it can not be sent at all
+                log.critical(lazymsg('update.pack.error reason=attributes_too_large'), 'parser')
+                announced = b''
+                announced_size = 0
+                continue
+            announced = bytes(packed)
+            announced_size = packed_size
 
         # Then pack all withdraws (if include_withdraw is True)
         if include_withdraw:
@@ -450,10 +456,15 @@ class UpdateCollection(Message):
                     yield self._message(UpdateCollection.prefix(withdraws) + UpdateCollection.prefix(attr) + announced)
                 else:
                     yield self._message(UpdateCollection.prefix(withdraws) + UpdateCollection.prefix(b'') + announced)
-                withdraws = bytes(packed)
-                withdraws_size = packed_size
                 announced = b''
                 announced_size = 0
+                if packed_size > msg_size:
+                    log.critical(lazymsg('update.pack.error reason=attributes_too_large'), 'parser')
+                    withdraws = b''
+                    withdraws_size = 0
+                    continue
+                withdraws = bytes(packed)
+                withdraws_size = packed_size
 
         if announced or withdraws:
             if announced:
